@@ -252,6 +252,19 @@ func evalC19(cs *c19Case) (vs []*Violation) {
 	// metamorphic: equal to the base variant (no fillers, no repetition, ample capacity, one shot)
 	base := *cs
 	base.Fillers, base.Repeat, base.Cap, base.Cut, base.PrevCut = nil, -1, 40, -1, 0
+	noContact := false
+	if cs.Method != "INVITE" {
+		// in a non-INVITE request Contact is one of the "other" headers: the base variant has none
+		base.Order, base.Compact = nil, 0
+		for i, h := range cs.Order {
+			if sigHdrDefs[h].Type == sipsp.HdrContact {
+				noContact = true
+				continue
+			}
+			base.Compact |= (cs.Compact >> i & 1) << len(base.Order)
+			base.Order = append(base.Order, h)
+		}
+	}
 	bm, _, _, _, _ := base.render()
 	pm, be := parseForSig(bm, 40, -1)
 	if be != 0 {
@@ -261,6 +274,8 @@ func evalC19(cs *c19Case) (vs []*Violation) {
 	if bse == sipsp.ErrHdrOk && bsig != sig {
 		cl := ""
 		switch {
+		case noContact && cs.PrevCut == 0 && cs.Repeat < 0 && len(cs.Fillers) == 0 && cs.Cut < 0:
+			cl = "contact-in-non-invite"
 		case cs.PrevCut > 0:
 			cl = "object-history"
 		case cs.Repeat >= 0:
